@@ -333,7 +333,9 @@ def rand_quantum_channel_matrix_subspace(dim_in, num_hermite, seed=None):
             ret.append(gellmann_basis_to_matrix(tmp1).real)
         if num_antisym>0:
             tmp0 = np.zeros((num_antisym, N0*N0), dtype=np.float64)
-            tmp0[:,N1:(2*N1)] = rand_special_orthogonal_matrix(N1, tag_complex=False, seed=np_rng)[:num_antisym]
+            # rand_special_orthogonal_matrix requires dim>=2, for dim_in=2 the antisymmetric subspace is one-dimensional
+            tmp1 = rand_special_orthogonal_matrix(N1, tag_complex=False, seed=np_rng) if (N1>1) else np.ones((1,1))
+            tmp0[:,N1:(2*N1)] = tmp1[:num_antisym]
             ret.append(gellmann_basis_to_matrix(tmp0).imag)
     else:
         assert num_hermite>=1
